@@ -38,7 +38,7 @@ def gen_case(streams, tier):
     case = {
         'prop': ID,
         'script': script,
-        'init': gen.gen_init(g, script),
+        'init': gen.gen_init(g, script, mem_misfit=True),
         'cycles': gen.gen_inputs(streams['inputs'], script, ncyc),
         'faults': world.gen_reject_faults(streams['faults'], script, ncyc, rate=0.4),
         'sched': world.gen_sched(streams),
